@@ -351,9 +351,10 @@ class ModelCacheMixin:
         # the cached models only witness the optimum of the stored constraints in the signedness it was computed
         # for; with extra constraints they say nothing about which values remain possible
         if len(extra_constraints) == 0 and (e.hash() in self._eval_exhausted or e.hash() in exhausted):
-            # we set allow_unconstrained to False because we expect all returned values for e are returned by Z3,
-            # instead of some arbitrarily assigned concrete values.
-            cached = self._get_solutions(e, allow_unconstrained=False)
+            # an expression is only flagged when the solver knows all its variables, so a variable missing from a
+            # cached model is one Z3 left open: any value, also the default one, goes with that model. Skipping such
+            # models (allow_unconstrained=False) dropped the values only they realise - possibly the optimum.
+            cached = self._get_solutions(e)
 
         if len(cached) > 0:
 
@@ -375,7 +376,7 @@ class ModelCacheMixin:
         cached = []
         exhausted = self._max_signed_exhausted if signed else self._max_exhausted
         if len(extra_constraints) == 0 and (e.hash() in self._eval_exhausted or e.hash() in exhausted):
-            cached = self._get_solutions(e, allow_unconstrained=False)
+            cached = self._get_solutions(e)
 
         if len(cached) > 0:
 
